@@ -32,13 +32,14 @@ ASSUMPTIONS = ["fork is called from a Python thread that is not inside a logging
                "enqueue handlers with a bounded pipe: modelled by Conc/ForkQueue.lean (lock order handler locks "
                "before queue locks), exercised by the real storm"]
 
-KINDS = ["log", "log", "fork", "fork", "add", "remove", "removeall"]
+KINDS = ["log", "log", "fork", "fork", "add", "remove", "removeall", "complete"]
 
 
 def stream_sched(ctx):
     rng = ctx.rng.fork("sched")
     boost = 3 if getattr(ctx, "search_boost", False) else 1
     lines, meta, nv = [], [], [0]
+    hk_lines, hk_meta = [], []
 
     def judge(r, program, how):
         bad = c02.monitors(r)
@@ -55,6 +56,12 @@ def stream_sched(ctx):
             if al:
                 meta.append((program, list(s.choices), len(al)))
                 lines.extend(al)
+            if len(hk_lines) < 200000:
+                from harness import c02_trace
+                got = c02_trace.hooks_lines(r)
+                if got is not None:
+                    hk_lines.extend(got[0])
+                    hk_meta.append((program, list(s.choices), got))
 
     cdir = os.path.join(core.VERIF, "corpus", "C15")
     if os.path.isdir(cdir):
@@ -88,6 +95,29 @@ def stream_sched(ctx):
                 break
             pos += n
         ctx.stat("acceptor_events", len(lines))
+    # second acceptor: the hooks' passes over the weak lock sets against add(), replayed on ForkHooks.step
+    if hk_lines:
+        from harness import c02_trace
+        try:
+            out = core.Driver("C02hooks").run(hk_lines)
+        except core.DriverError as e:
+            # the model no longer builds against the regenerated shapes (extractor failed closed / a flag changed
+            # type): a broken tie, reported as such; the remaining streams still run and look for a failing input
+            ctx.broke("driver:C02hooks", str(e)[-1500:])
+            out, hk_meta = [], []
+        pos = 0
+        for program, schedule, (hl, hm) in hk_meta:
+            chunk = out[pos:pos + len(hl)]
+            pos += len(hl)
+            ctx.stat("hooks_traces")
+            ctx.stat("hooks_passes", sum(1 for l in hl if l.endswith("iterBegin")))
+            ctx.stat("hooks_registrations", sum(1 for l in hl if l.endswith("register")))
+            dis = c02_trace.hooks_judge(hl, hm, chunk)
+            if dis:
+                ctx.stat("hooks_disagreements")
+                ctx.broke("correspondence ForkHooks.accepts",
+                          "%s\nprogram=%s schedule=%s" % (dis[0], json.dumps(program), json.dumps(schedule)))
+                break
 
 
 def qfork_monitors(r):
